@@ -4,9 +4,10 @@
 //! of construction or matching, a difference from the naive matcher (as multisets) — and prints
 //! an ordinary E2E record for every suspicious case, so that the driver's oracles judge it.
 //! Prints one `HUNT` summary record at the end (cases run, suspicious cases).
-use crate::e2e::{random_charvars, string_case, Heur};
+use crate::e2e::{matrix_case, random_charvars, random_matpat, string_case, Heur, MatPat};
 use crate::proto::catch;
 use crate::rng::Rng;
+use portmatching::matrix::{MatrixPattern, MatrixString};
 use portmatching::string::{CharVar, StringPattern};
 use portmatching::{DetHeuristic, ManyMatcher, NaiveManyMatcher, PatternFallback, PortMatcher};
 use std::sync::atomic::{AtomicUsize, Ordering};
@@ -76,6 +77,75 @@ fn examine(pats: &[Vec<CharVar>], heur: &Heur, hosts: &[String]) -> bool {
     r.unwrap_or(true)
 }
 
+
+fn gen_big_matset(rng: &mut Rng) -> Vec<MatPat> {
+    let np = rng.range(3, 10);
+    let nlits = rng.range(1, 2);
+    let mut pats: Vec<MatPat> = vec![];
+    for _ in 0..np {
+        if !pats.is_empty() && rng.chance(1, 2) {
+            // share the leading rows / cells of an earlier pattern
+            let mut base = rng.pick(&pats).clone();
+            if !base.is_empty() {
+                let r = rng.below(base.len());
+                base.truncate(r + 1);
+                let cut = rng.below(base[r].len() + 1);
+                base[r].truncate(cut);
+                base[r].extend(random_charvars(rng, 3, nlits).into_iter().map(Some));
+            }
+            pats.push(base);
+        } else {
+            pats.push(random_matpat(rng, nlits));
+        }
+    }
+    pats
+}
+
+/// true = suspicious
+fn examine_mat(pats: &[MatPat], heur: &Heur, hosts: &[Vec<Vec<char>>]) -> bool {
+    let r = catch(|| {
+        let patterns: Vec<MatrixPattern> = pats.iter().map(|p| MatrixPattern::new(p.clone())).collect();
+        let (h, _) = heur.make();
+        let h: DetHeuristic<_, _> = h;
+        let m = match ManyMatcher::try_from_patterns_with_det_heuristic(patterns.clone(), PatternFallback::Fail, h) {
+            Ok(m) => m,
+            Err(_) => return true,
+        };
+        portmatching::verif::take_log();
+        let d = m
+            .verif_automaton()
+            .verif_dump(|_| String::from("c"), |_: &portmatching::matrix::MatrixPatternPosition| String::new());
+        for s in &d.states {
+            let eps = s.out_edges.iter().filter(|e| e.2.is_none()).count();
+            if eps >= 2 || s.epsilon_order.len() >= 2 {
+                return true;
+            }
+        }
+        let naive = match NaiveManyMatcher::try_from_patterns(patterns.iter()) {
+            Ok(n) => n,
+            Err(_) => return true,
+        };
+        for host in hosts {
+            let host = MatrixString { rows: host.clone() };
+            let mut a: Vec<(usize, String)> = m
+                .find_matches(&host)
+                .map(|pm| (pm.pattern.0, format!("{:?}", pm.match_data)))
+                .collect();
+            let mut b: Vec<(usize, String)> = naive
+                .find_matches(&host)
+                .map(|pm| (pm.pattern.0, format!("{:?}", pm.match_data)))
+                .collect();
+            a.sort();
+            b.sort();
+            if a != b {
+                return true;
+            }
+        }
+        false
+    });
+    r.unwrap_or(true)
+}
+
 pub fn run(seed: u64, thorough: bool) {
     let threads = std::thread::available_parallelism().map(|n| n.get()).unwrap_or(4).min(16);
     let per_thread = if thorough { 60_000 } else { 3_000 };
@@ -100,6 +170,18 @@ pub fn run(seed: u64, thorough: bool) {
                     if hits.fetch_add(1, Ordering::Relaxed) < 20 {
                         // the full record, judged by the driver
                         string_case("E2E", &pats, &heur, &hosts);
+                    }
+                }
+                // every fourth case: a matrix set
+                if cases.load(Ordering::Relaxed) % 4 == 0 {
+                    let mpats = gen_big_matset(&mut rng);
+                    let mhosts: Vec<Vec<Vec<char>>> =
+                        (0..2).map(|_| crate::e2e::planted_mat_host(&mut rng, &mpats)).collect();
+                    cases.fetch_add(1, Ordering::Relaxed);
+                    if examine_mat(&mpats, &heur, &mhosts) {
+                        if hits.fetch_add(1, Ordering::Relaxed) < 20 {
+                            matrix_case("E2E", &mpats, &heur, &mhosts);
+                        }
                     }
                 }
             }
